@@ -162,6 +162,8 @@ impl Sub for Validators {
     let claim_specs: Vec<ClaimSpec> = vals
       .iter()
       .map(|(id, k, _)| match k.as_str() {
+        // every other validator on a registered claim is registered the way the crate's documentation does it: with `XClaim::default()`
+        reg if id % 2 == 1 && DEFAULT_KEYS.contains(&reg) => ClaimSpec::DefaultOf(DEFAULT_KEYS.iter().position(|d| *d == reg).unwrap() as u8),
         "iss" => ClaimSpec::Iss("expected-issuer".into()),
         "sub" => ClaimSpec::Sub(String::new()),
         "aud" => ClaimSpec::Aud("x".into()),
@@ -476,7 +478,7 @@ pub fn run(ctx: &Ctx) -> EvidenceMeta {
   }
   run_jobs(jobs);
   EvidenceMeta {
-    rule: "0-5 validators registered with validate_claim on distinct keys (registered iss/sub/aud/jti/iat through typed claims, custom keys through CustomClaim and a caller-defined claim); behaviours accept / reject / accept-iff-string / accept-iff-even-integer / accept-iff-null, implemented as 'static functions that log (id, key, value); \
+    rule: "0-5 validators registered with validate_claim on distinct keys (registered iss/sub/aud/jti/iat/exp/nbf through typed claims - built from a value or with XClaim::default() as in the crate's documentation -, custom keys through CustomClaim and a caller-defined claim); behaviours accept / reject / accept-iff-string / accept-iff-even-integer / accept-iff-null, implemented as 'static functions that log (id, key, value); \
            sequences of 1-6 tokens parsed by one GenericParser or PasetoParser: authentic (claim present / absent / of another type) and unauthenticated (bit flipped, truncated, wrong key, wrong footer, wrong assertion, wrong header). \
            Oracle: unauthenticated => Err with a format/authentication error and an empty call log; authentic => every logged call carries the validator's registered key and exactly payload[key] (null when absent), no validator runs twice; some validator rejects per the model => Err(claim error); \
            all accept => Ok and the log contains every registered validator exactly once. Non-trivial = at least one validator and (a rejecting or value-dependent validator, or an unauthenticated token); distinct by case."
